@@ -10,7 +10,7 @@ Ops (JSON lists):
   ["RegRun", c] ["RegTag", c] ["RegType", t]
   ["Insert", t, c, [[d, newid], ...]]            insertDatasets(dt, dataIds, run=c)
   ["Import", c, [[id, t, d], ...]]               _importDatasets([DatasetRef(dt, d, run=c, id=uuid(id))])
-  ["Assoc", c, [[id, t, d], ...]]  ["Disassoc", c, [[id, t, d], ...]]
+  ["Assoc", c, [[id, t, d, run], ...]]  ["Disassoc", c, [[id, t, d, run], ...]]
   ["RemoveDs", [[id, t, d, run], ...]]  ["RemoveColl", c]
 """
 from __future__ import annotations
@@ -147,6 +147,7 @@ class Driver:
                 perr("getDatasetType", e)
         obs["types"] = types
         views = {"qd": [], "qa": [], "bq": [], "fd": [], "qp": [], "bqp": []}
+        have_c = {c for c, _ in colls}
         summ_t, summ_g = [], []
         for c in range(self.ncoll + 1):
             cn = cname(c)
@@ -171,8 +172,8 @@ class Driver:
                         views["qa"].append(self._row(int(a.collection[1:]), t, a.ref))
                 except Exception as e:  # noqa: BLE001
                     perr("queryDatasetAssociations", e)
-                if not full:
-                    continue
+                if not full or c not in have_c or t not in types:
+                    continue      # names that do not exist are probed through queryDatasets (+ associations, raw rows) only
                 try:
                     for r in butler.query_datasets(tn, collections=[cn], find_first=False, explain=False, limit=None):
                         views["bq"].append(self._row(c, t, r))
